@@ -27,10 +27,34 @@ THEOREMS = [
     "Determinism.projectname_counterexample_old", "Determinism.projectname_old_depends_on_enumeration",
     "Determinism.keyed_writes_invariant", "Determinism.run_writes_through", "Determinism.run_characterization",
     "Determinism.rerun_idempotent", "Determinism.output_independent_of_old_content",
+    "Determinism.pairLe_isOrder", "Determinism.alphaLe_isOrder", "Determinism.sourceLe_isOrder", "Determinism.lcLe_isOrder",
+    "Determinism.sortedWith_perm_invariant", "Determinism.sortedWith_sorted", "Determinism.sortedWith_stable",
+    "Determinism.sortedWith_tie_depends_on_input",
+    "Determinism.lc_order_invariant", "Determinism.full_order_invariant", "Determinism.names_order_invariant",
+    "Determinism.alpha_order_invariant_partial", "Determinism.alpha_order_invariant_of_lower_distinct",
+    "Determinism.alpha_tie_counterexample", "Determinism.alpha_ties_keep_input_order",
+    "Determinism.source_order_invariant_partial", "Determinism.source_tie_counterexample",
+    "Determinism.source_ties_keep_input_order", "Determinism.source_never_mixed", "Determinism.sortedSource_defined",
+    "Determinism.lower_order_invariant_partial", "Determinism.lower_tie_counterexample",
+    "Determinism.unmaskedAttrs_enum_invariant", "Determinism.unmaskedAttrs_in_contents_order",
+    "Determinism.unmaskedAttrs_no_indexError",
     "Determinism.buildtime_function_of_inputs", "Determinism.buildtime_epoch_used", "Determinism.buildtime_epoch_zero",
     "Determinism.buildtime_option_wins", "Determinism.buildtime_clock_when_unset", "Determinism.buildtime_notInt_refused",
 ]
 PARTIAL = {
+    "Determinism.alpha_order_invariant_partial":
+        "statement: the alphabetical member / module tables (util.alphabetical_order_func) do not depend on the order of the "
+        "input list. Full statement for objects with distinct full names is false: the key holds the LOWERED full name. "
+        "Proved when no two objects of the list share (privacy, kind, lowered name). Excluded inputs (m.F / m.f): "
+        "alpha_tie_counterexample; for them alpha_ties_keep_input_order shows the tied entries keep the input (contents) order, "
+        "and the stream `writer sorts` replays such ties on the real code on every run. The input order is pydoctor's own "
+        "dict order, so the byte oracle is unaffected - this is not a C18 violation",
+    "Determinism.source_order_invariant_partial":
+        "same for util.source_order_func (--cls-member-order/--mod-member-order=source): excluded are objects of equal privacy "
+        "and kind on one source line (a = b = 0); source_tie_counterexample, source_ties_keep_input_order",
+    "Determinism.lower_order_invariant_partial":
+        "findRootClasses (classIndex roots) and the zope `implements` list sort by x.lower(): excluded are names that differ in "
+        "case only; lower_tie_counterexample; ties keep dict / list order",
     "Determinism.rerun_idempotent":
         "hypothesis wfRun: the name that becomes the root symlink (<root>.html) is not written after the link is made, and "
         "either not before it, or the link target (index.html) is rewritten afterwards and differs from it. Since /repo "
@@ -49,7 +73,10 @@ RULE = ("generated projects (1-3 roots: packages and plain modules; with / witho
         "unchanged tree: they must be refused the same way by every run and leave no output). Whole output trees compared "
         "byte for byte (sha-256 of every file, symlink targets, file set; no normalisation). One evaluation = one build of "
         "one project compared with that project's reference build. Non-trivial = the project has >= 2 roots, or a package "
-        "with >= 3 directory entries, or the build went into a reused directory, or ran at another wall-clock second.")
+        "with >= 3 directory entries, or the build went into a reused directory, or ran at another wall-clock second. "
+        "A fixed corpus of 11 projects (every finding's input and the shape each seeded change needs: unnamed multi-root, "
+        "case-colliding siblings, inherited members tying on line / case with both member orders, classIndex root ties, the "
+        "single-root variants, SOURCE_DATE_EPOCH 0 / '00' / '0 ' / 'abc') runs first on every run.")
 ASSUMPTIONS = [
     "the static scan that ties the site catalogue (harness/c18_sites.json) to the code is a syntactic, flow-insensitive "
     "HEURISTIC (harness/sitescan.py): sets reaching an Iterable parameter, sets built by third-party code and dynamic "
@@ -70,6 +97,17 @@ ASSUMPTIONS = [
     "still run at naturally different times, but not necessarily in different seconds; children run with TZ=UTC",
     "int() and datetime.utcfromtimestamp() decide how a SOURCE_DATE_EPOCH string is classified for the model "
     "(CPython is the reference for these two parameters)",
+    "str.lower() is CPython's: every object / str travels to the model with its lowered form (parameter of the sort keys)",
+    "the writers' sorts are observed by planting a `sorted` global (records input, key, result; calls the builtin) in "
+    "templatewriter.summary/util/pages/sidebar and epydoc2stan while real pages are rendered in-process; list.sort is used once "
+    "(UndocumentedSummaryPage) and is read back from the rendered list. Python's sort is stable (CPython's guarantee); the "
+    "model uses core List.mergeSort, stable as well (sortedWith_stable)",
+    "not transcribed (listed as not-modelled in harness/c18_sites.json `sorts`, each with the reason its key is total): "
+    "format_undocumented (enum values), _pyval_repr FLAGS table, PriorityProcessor._post_processors (unique counter), "
+    "_configparser parser preference",
+    "search documents (all-documents.html, lunr corpus), the objects.inv lines and every `contents` walk follow dict insertion "
+    "order (CPython guarantee) of System.allobjects / Documentable.contents, itself fixed by the sorted traversal and the "
+    "command-line order of the roots; lunr's own index layout is third party",
     "different builds of one project use different absolute output paths (they run in parallel); pydoctor does not "
     "write the output path into the output",
 ]
@@ -242,6 +280,50 @@ def materialise(p: Dict[str, Any], base: Path) -> Path:
         f.parent.mkdir(parents=True, exist_ok=True)
         f.write_text(text, encoding="utf-8")
     return src
+
+
+# ------------------------------------------------------------------ deterministic corpus (runs FIRST on every run)
+
+TIES_BASE = ("class Base:\n    '''base'''\n    first = second = third = 0\n    Alpha = 1\n    alpha = 2\n    ALPHA = 3\n"
+             "    def run(self): pass\n    def Run(self): pass\n"
+             "class Mid(Base):\n    '''mid'''\n    second = 5\n"
+             "class Sub(Mid):\n    '''inherits ties'''\n    own = 1; other = 2\n"
+             "def helper(): pass\n"
+             "def Helper(): pass\n"
+             "x = y = 0\n")
+
+
+def corpus_projects() -> List[Dict[str, Any]]:
+    """every finding's input and every seeded change's needed shape (/verif/seeded/C18*/meta.json), as fixed projects"""
+    def proj(pid: str, files: Dict[str, str], roots: List[str], args: List[str], epoch: str, explicit: Optional[str] = None) -> Dict[str, Any]:
+        return {"id": "corpus-" + pid, "kind": "generated", "files": files, "roots": roots, "explicit": explicit,
+                "args": ["--docformat=plaintext"] + args, "docformat": "plaintext", "epoch": epoch}
+    return [
+        # finding hashseed:project-name-guess (fixed f35e237) = seeded C18-1: several roots, no --project-name;
+        # SOURCE_DATE_EPOCH=0 = seeded C18-r2-3
+        proj("two-roots-unnamed", {"lib.py": "x = 1\n", "mod.py": "y = 2\n"}, ["lib.py", "mod.py"], [], "0"),
+        proj("three-roots-unnamed", {"pkg/__init__.py": "", "pkg/m.py": "class K: pass\n", "lib.py": "x = 1\n", "app.py": "z = 3\n"},
+             ["pkg", "lib.py", "app.py"], [], "00"),
+        # seeded C18-2: siblings whose names differ in case only (a case-insensitive traversal sort would tie)
+        proj("case-siblings", {"pkg/__init__.py": "'''p'''\n", "pkg/Shapes.py": "class Circle:\n    '''c'''\n",
+                               "pkg/shapes.py": "class circle:\n    '''c'''\n", "pkg/SHAPES.py": "def f(): pass\n",
+                               "pkg/Sub/__init__.py": "", "pkg/sub/__init__.py": "", "pkg/sub/m.py": "x=1\n", "pkg/Sub/M.py": "x=1\n"},
+             ["pkg"], [], "1700000000"),
+        # seeded C18-r2-1: inherited members that tie under the member sort key (one source line / names differing in case)
+        proj("inherited-ties-source", {"ties.py": TIES_BASE}, ["ties.py"], ["--cls-member-order=source", "--mod-member-order=source"], "0 "),
+        proj("inherited-ties-alpha", {"ties.py": TIES_BASE}, ["ties.py"], [], "1"),
+        # classIndex roots / external bases whose names differ in case only (findRootClasses key = lower())
+        proj("root-class-ties", {"rc.py": "import ext\nclass A(ext.Foo): pass\nclass B(ext.foo): pass\nclass C(ext.FOO): pass\n"
+                                          "class Top: pass\nclass top: pass\nclass D(Top): pass\nclass d(Top): pass\n"},
+             ["rc.py"], [], "2147483648"),
+        # seeded C18-r2-2 / 5201211 / a09aa28: exactly one root; one named like a summary page, one called index, one hidden
+        proj("single-root", {"solo/__init__.py": "'''s'''\n", "solo/a.py": "x=1\n", "solo/b.py": "y=1\n", "solo/c.py": "z=1\n"}, ["solo"], [], "-1"),
+        proj("classIndex", {"classIndex.py": '"""A module named like a summary page."""\nclass K:\n    """k"""\n'}, ["classIndex.py"], [], "123456789012"),
+        proj("index", {"index.py": '"""A module called index."""\ndef f():\n    """f"""\n'}, ["index.py"], [], "2147483647"),
+        proj("hidden-root", {"hid.py": '"""A hidden root."""\nx = 1\n'}, ["hid.py"], ["--privacy=HIDDEN:hid"], str(EPOCH)),
+        # a SOURCE_DATE_EPOCH the tree refuses
+        proj("epoch-not-a-number", {"m.py": "x = 1\n"}, ["m.py"], [], "abc"),
+    ]
 
 
 # ------------------------------------------------------------------ builds
@@ -826,6 +908,191 @@ def catalogue_stream(ctx: Ctx) -> None:
                                    "classes": sorted({s["classification"] for s in cat})}
 
 
+def sort_catalogue_stream(ctx: Ctx) -> None:
+    """every sorted()/.sort() call of the tree under test against the committed list (file, function, what, key)"""
+    cat = json.loads((VERIF / "harness" / "c18_sites.json").read_text())["sorts"]
+    try:
+        found = sitescan.scan_sorts(REPO)
+    except Exception as e:
+        ctx.disagree("sort-catalogue", "scan", "catalogue", "scan failed: %r" % e)
+        return
+
+    def k(x: Dict[str, str]) -> Tuple[str, ...]:
+        return (x["file"], x["function"], x["sorted"], x["key"], x["reverse"])
+    ck = {k(x): x for x in cat}
+    fk = {k(x): x for x in found}
+    for key_, x in sorted(fk.items()):
+        ctx.traces_validated += 1
+        if key_ in ck:
+            ctx.count("sort-site:" + ck[key_]["keyclass"])
+        else:
+            ctx.disagree("sort-catalogue", {"file": key_[0], "function": key_[1], "sorted": key_[2], "line": x["line"]},
+                         "not in the catalogue of sort sites", "code sorts with key=%s reverse=%s" % (key_[3], key_[4]))
+    for key_, x in sorted(ck.items()):
+        if key_ not in fk:
+            ctx.disagree("sort-catalogue", {"file": key_[0], "function": key_[1], "sorted": key_[2]},
+                         "catalogued with key=%s (%s)" % (key_[3], x["keyclass"]), "the code no longer has this sort (or its key changed)")
+    ctx.extra["sort_catalogue"] = {"catalogued": len(ck), "found_by_scan": len(fk)}
+
+
+PRES_SOURCES = [
+    {"m.py": TIES_BASE},
+    {"rc.py": "import ext\nclass A(ext.Foo): pass\nclass B(ext.foo): pass\nclass C(ext.FOO): pass\nclass Top: pass\nclass top: pass\n"
+              "class D(Top): pass\nclass d(Top): pass\nclass E(Top, ext.Foo): pass\n"},
+    {"zi.py": "from zope.interface import Interface, implementer\nclass IFoo(Interface): pass\nclass ifoo(Interface): pass\n"
+              "class IBar(Interface): pass\n@implementer(IFoo, ifoo, IBar)\nclass Impl: pass\n@implementer(IFoo)\nclass impl: pass\n"},
+]
+
+
+def obj_token(o: Any) -> str:
+    from pydoctor import model
+    full = o.fullName()
+    return "%d;%s;%d;%s;%s;%s" % (o.privacyClass.value, o.kind.value if o.kind is not None else "-", o.linenumber or 0,
+                                  "m" if isinstance(o, model.Module) else "o", enc(full), enc(full.lower()))
+
+
+def str_token(x: str) -> str:
+    return "%s;%s" % (enc(x), enc(x.lower()))
+
+
+def presentation_stream(ctx: Ctx, st: Streams, scratch: Path) -> None:
+    """Render real projects in-process while OBSERVING every `sorted(...)` call of the writer modules (a `sorted` global is
+    planted in each module: it records input, key function and result, and calls the builtin); each recorded sort is
+    then asked of the model with the transcribed key.  Also: util.unmasked_attrs / inherited_members on every class,
+    and the list.sort of UndocumentedSummaryPage read back from the rendered page."""
+    import builtins
+    import re
+    from pydoctor import model, epydoc2stan
+    from pydoctor.options import Options
+    from pydoctor.templatewriter import summary, util, pages, TemplateLookup
+    from pydoctor.templatewriter.pages import sidebar
+    from pydoctor.templatewriter.writer import TemplateWriter
+    from twisted.web.template import flattenString, tags
+    from ..gen.project import build_system
+    try:
+        import importlib.resources as importlib_resources
+    except ImportError:       # pragma: no cover
+        import importlib_resources  # type: ignore
+    rng = ctx.rng
+    spied = [summary, util, pages, sidebar, epydoc2stan]
+    projects: List[Tuple[str, Any, List[str]]] = []
+    for n, files in enumerate(PRES_SOURCES):
+        for order in ("alphabetical", "source"):
+            units = [Unit(f[:-3], False, src, None) for f, src in files.items()]
+            projects.append(("corpus%d-%s" % (n, order), units, ["--cls-member-order=" + order, "--mod-member-order=" + order]))
+    for i in range(5 if ctx.quick else 60):
+        g = DetGen(rng, rng.choice([1, 2, 3]))
+        projects.append(("gen%d" % i, g.project(), ["--cls-member-order=" + rng.choice(["alphabetical", "source"]),
+                                                   "--mod-member-order=" + rng.choice(["alphabetical", "source"])]))
+    for pid, units, args in projects:
+        opts = Options.from_args(args + ["--project-name=p"])
+        system = opts.systemclass(opts)
+        try:
+            build_system(units, system=system)
+        except Exception as e:          # C01's matter
+            ctx.count("presentation:build-crashed:" + type(e).__name__)
+            continue
+        records: List[Tuple[List[Any], Any, List[Any]]] = []
+
+        def spy(iterable: Any, *, key: Any = None, reverse: bool = False) -> List[Any]:
+            inp = list(iterable)
+            res_ = builtins.sorted(inp, key=key, reverse=reverse)
+            records.append((inp, key, res_))
+            return res_
+        out = scratch / ("pres_" + pid)
+        lookup = TemplateLookup(importlib_resources.files("pydoctor.themes") / "base")
+        lookup.add_templatedir(importlib_resources.files("pydoctor.themes") / "classic")
+        for m in spied:
+            m.sorted = spy  # type: ignore[attr-defined]
+        try:
+            w = TemplateWriter(out, lookup)
+            w.prepOutputDirectory()
+            w.writeSummaryPages(system)
+            w.writeIndividualFiles(system.rootobjects)
+        except Exception as e:
+            ctx.count("presentation:render-crashed:" + type(e).__name__)
+            continue
+        finally:
+            for m in spied:
+                del m.sorted  # type: ignore[attr-defined]
+        ctx.count("presentation:projects")
+        for inp, key, res in records:
+            kname = getattr(key, "__qualname__", "-") if key is not None else "-"
+            distinct = len({id(x) for x in inp}) == len(inp)
+            pos = " ".join(["ok"] + [str(next(i for i, x in enumerate(inp) if x is y)) for y in res]) if distinct else "dup"
+            where = {"project": pid, "key": kname, "n": len(inp)}
+            if len(inp) >= 2:
+                ties = len(inp) - len({repr(key(x)) if key is not None else repr(x) for x in inp})
+                ctx.count("sort:%s:%s" % (kname.replace(".<locals>.<lambda>", ".lambda"), "ties" if ties else "no-ties"))
+            if key in (util.alphabetical_order_func, util.source_order_func, summary._lckey):
+                which = {util.alphabetical_order_func: "alpha", util.source_order_func: "source", summary._lckey: "lc"}[key]
+                st.add("writer sorts~sortedWith", "determinism order %s %s" % (which, " ".join(obj_token(o) for o in inp)), pos, where)
+            elif kname == "LetterElement.names.<locals>.<lambda>":
+                st.add("writer sorts~sortedWith", "determinism strorder names " + " ".join(str_token(x) for x in inp), pos, where)
+            elif kname == "findRootClasses.<locals>.<lambda>":
+                # roots.items(): (name, class or list) pairs with distinct names; the key reads the name only
+                names = [x[0] for x in inp]
+                p2 = " ".join(["ok"] + [str(names.index(y[0])) for y in res])
+                st.add("writer sorts~sortedWith", "determinism strorder lower " + " ".join(str_token(x) for x in names), p2, where)
+            elif kname == "ZopeInterfaceClassPage.extras.<locals>.<lambda>":
+                if len(set(inp)) == len(inp):
+                    p2 = " ".join(["ok"] + [str(inp.index(y)) for y in res])
+                    st.add("writer sorts~sortedWith", "determinism strorder lower " + " ".join(str_token(x) for x in inp), p2, where)
+            elif kname == "IndexPage.rootkind.<locals>.<lambda>":
+                names = [k_.name for k_ in inp]
+                p2 = " ".join(["ok"] + [str(names.index(y.name)) for y in res])
+                st.add("writer sorts~sortedWith", "determinism strorder plain " + " ".join(str_token(x) for x in names), p2, where)
+            elif key is None and all(isinstance(x, str) for x in inp):
+                if len(set(inp)) == len(inp):
+                    p2 = " ".join(["ok"] + [str(inp.index(y)) for y in res])
+                    st.add("writer sorts~sortedWith", "determinism strorder plain " + " ".join(str_token(x) for x in inp), p2, where)
+            elif kname == "format_undocumented.<locals>.<lambda>":
+                ctx.count("sort:not-modelled:enum-values")
+            else:
+                ctx.disagree("writer sorts~sortedWith", where, "no transcribed key for this sort", "the writers sort with key " + kname)
+        # inherited members
+        for cls in system.objectsOfType(model.Class):
+            mro = list(cls.mro())
+            ids: Dict[int, int] = {}
+            groups = []
+            for c in mro:
+                toks = []
+                for o in c.contents.values():
+                    ids[id(o)] = len(ids)
+                    toks.append("%s;%s" % (enc(o.name), "v" if o.isVisible else "h"))
+                groups.append(" ".join(toks))
+            impl = " ".join(["ok"] + [str(ids[id(o)]) for o in util.inherited_members(cls)])
+            st.add("util.inherited_members~inheritedMembers", "determinism inherited " + " | ".join(groups), impl,
+                   {"project": pid, "class": cls.fullName()})
+            ctx.count("inherited:mro-length=%d" % min(len(mro), 4))
+            for chain in util.nested_bases(cls):
+                ids2: Dict[int, int] = {}
+                g2 = []
+                for c in chain:
+                    toks = []
+                    for o in c.contents.values():
+                        ids2[id(o)] = len(ids2)
+                        toks.append("%s;%s" % (enc(o.name), "v" if o.isVisible else "h"))
+                    g2.append(" ".join(toks))
+                impl2 = " ".join(["ok"] + [str(ids2[id(o)]) for o in util.unmasked_attrs(chain)])
+                st.add("util.unmasked_attrs~unmaskedAttrs", "determinism unmasked " + " | ".join(g2), impl2,
+                       {"project": pid, "chain": [c.fullName() for c in chain]})
+        # UndocumentedSummaryPage: list.sort(key=fullName), read back from the rendered list
+        undoc = [o for o in system.allobjects.values() if o.isVisible and not summary.hasdocstring(o)]
+        if undoc:
+            page = summary.UndocumentedSummaryPage(system, lookup)
+            html: List[bytes] = []
+            flattenString(None, page.stuff(None, tags.ul())).addCallback(html.append)
+            shown = [re.sub(r"<[^>]+>", "", m_) for m_ in re.findall(r"<code>(.*?)</code>", html[0].decode("utf-8"))] if html else []
+            names = [o.fullName() for o in undoc]
+            if len(shown) == len(names) and len(set(names)) == len(names) and all(n in names for n in shown):
+                impl = " ".join(["ok"] + [str(names.index(n)) for n in shown])
+            else:
+                impl = "page shows %d names for %d objects" % (len(shown), len(names))
+            st.add("UndocumentedSummaryPage~sortedFull", "determinism order full " + " ".join(obj_token(o) for o in undoc), impl, {"project": pid})
+        shutil.rmtree(out, ignore_errors=True)
+
+
 # ------------------------------------------------------------------ run
 
 def real_projects() -> List[Dict[str, Any]]:
@@ -844,26 +1111,17 @@ def real_projects() -> List[Dict[str, Any]]:
 
 def run(ctx: Ctx) -> None:
     catalogue_stream(ctx)
+    sort_catalogue_stream(ctx)
     scratch = Path(tempfile.mkdtemp(prefix="c18-"))
     st = Streams()
     try:
         site_function_stream(ctx, st)
         os_semantics_stream(ctx, st, scratch)
-        nproj = 12 if ctx.quick else 200
-        # always there: a single root module named like a summary page (before /repo 5201211 classIndex.html became the
-        # root symlink and a re-run wrote the summary page THROUGH that link; now the alias is skipped)
-        projects: List[Dict[str, Any]] = [{
-            "id": "fixed-classIndex", "kind": "generated", "explicit": None, "args": ["--docformat=plaintext"],
-            "roots": ["classIndex.py"], "docformat": "plaintext",
-            "files": {"classIndex.py": '"""A module named like a summary page."""\nclass K:\n    """k"""\n'}},
-            # a single root module called `index`: <root>.html IS index.html, no alias (since /repo 5201211 and its predecessor)
-            {"id": "fixed-index", "kind": "generated", "explicit": None, "args": ["--docformat=plaintext"],
-             "roots": ["index.py"], "docformat": "plaintext",
-             "files": {"index.py": '"""A module called index."""\ndef f():\n    """f"""\n'}},
-            # a single root that --privacy hides: index.html is the IndexPage (since /repo a09aa28)
-            {"id": "fixed-hidden-root", "kind": "generated", "explicit": None, "args": ["--docformat=plaintext", "--privacy=HIDDEN:hid"],
-             "roots": ["hid.py"], "docformat": "plaintext",
-             "files": {"hid.py": '"""A hidden root."""\nx = 1\n'}}]
+        presentation_stream(ctx, st, scratch)
+        nproj = 8 if ctx.quick else 200
+        # the corpus first, on every run: detection of the known shapes never depends on the seed
+        run_projects(ctx, st, corpus_projects(), scratch, jobs=16)
+        projects: List[Dict[str, Any]] = []
         i = 0
         while len(projects) < nproj:
             p = gen_project(ctx.rng, i)
